@@ -23,7 +23,7 @@ FILES = ['regions/shapes/circle.py', 'regions/shapes/ellipse.py', 'regions/shape
          'regions/shapes/line.py', 'regions/core/compound.py', 'regions/core/core.py',
          'regions/core/pixcoord.py']
 RULE = ('full Cartesian product of shape class x size (pairs) x angle x angular unit/representation x centre, '
-        'each crossed with the 5 include flags (flat query) and, on every 6th configuration per class, with all 12 query container forms x 5 flags; queries are generated in the shape '
+        'each crossed with the 5 include flags (flat query) and, on every 6th configuration per class, with all 14 query container forms x 5 flags; queries are generated in the shape '
         'frame at normalised radii {0,.3,.7,.9,.99,1-2^-10,1+2^-10,1.01,1.1,1.5,3} x 16 directions; a '
         'configuration is non-trivial when it has sure members and sure non-members within 1% of the boundary')
 BOUNDS = {'quick': '5 sizes (2^-30, 2^-10 .. 1.75*2^20), 6 angles x 3 representations, 2 centres, all classes, all includes, all containers',
@@ -110,7 +110,7 @@ def configs(tier):
     return out
 
 
-CONTAINERS = ['flat', 'scalar', 'scalar_int', 'empty', '2d', '3d', 'layout', 'broadcast', 'intarr', 'in_array', 'narrow_int', 'reassign']
+CONTAINERS = ['flat', 'scalar', 'scalar_int', 'empty', 'one_element', 'nonfinite', '2d', '3d', 'layout', 'broadcast', 'intarr', 'in_array', 'narrow_int', 'reassign']
 
 
 def _isboolscalar(v):
@@ -238,6 +238,26 @@ def _one(res, reg, ref, s, flag, cont, case, qx, qy, ins0, sure0, PixCoord):
         got = reg.contains(PixCoord(x, y))
         ok = _cmp(res, case, cont, got, want_of(ins0[:2 * k].reshape(shp)), sure0[:2 * k].reshape(shp), shp)
         res.outcome((cont, s['cls'], flag, ok))
+    elif cont == 'one_element':
+        # exactly one position that is not a scalar: shapes (1,), (1, 1) and a scalar x against a one-element y
+        x1, y1 = float(qx[0]), float(qy[0])
+        w1, s1 = want_of(ins0[:1]), sure0[:1]
+        for label, (fx, fy), shp in (('(1,)', (np.array([x1]), np.array([y1])), (1,)),
+                                     ('(1,1)', (np.array([[x1]]), np.array([[y1]])), (1, 1)),
+                                     ('scalar x, (1,) y', (x1, np.array([y1])), (1,))):
+            res.transitions += 1
+            got = reg.contains(PixCoord(fx, fy))
+            _cmp(res, dict(case, form=label), f'one-element query {label}', got, np.asarray(w1).reshape(shp), np.asarray(s1).reshape(shp), shp)
+        res.outcome(('one_element', s['cls'], flag))
+    elif cont == 'nonfinite':
+        # NaN and infinite coordinates are nowhere: not inside any shape (so an excluded region answers True)
+        bx, by = float(qx[0]), float(qy[0])
+        fx = np.array([np.nan, bx, np.nan, np.inf, -np.inf, bx])
+        fy = np.array([by, np.nan, np.nan, by, by, np.inf])
+        res.transitions += 1
+        got = reg.contains(PixCoord(fx, fy))
+        _cmp(res, case, 'non-finite coordinates', got, want_of(np.zeros(6, bool)), np.ones(6, bool), (6,))
+        res.outcome(('nonfinite', s['cls'], flag))
     elif cont == 'layout':
         # the same 2-d / 3-d queries in other memory layouts: column-major (Fortran) order, transposed views, strided views
         k = min(9, qx.size // 3)
